@@ -78,6 +78,12 @@ static void gate_bits(int lambda, int reps) {
         int d = bootsSymDecrypt(c, sk);
         VH_B; vh_s("k", "bit"); VH_C; vh_i("lambda", lambda); VH_C; vh_i("n", p->in_out_params->n); VH_C; vh_i("bit", b); VH_C; vh_w("ph", ph); VH_C; vh_i("dec", d); VH_E;
     }
+    // every noise up to the decryptable maximum: a fresh encryption whose body is shifted so that its phase is the encoding of the bit plus a chosen error, |e| < 1/8
+    { const int32_t es[] = {(1 << 29) - 1, -((1 << 29) - 1), 1 << 28, -(1 << 28), (1 << 28) + 1, -((1 << 28) + 1), (1 << 28) - 1, -((1 << 28) - 1), 3 << 27, -(3 << 27), 1 << 27, -(1 << 27), 0x1fff0000, -0x1fff0000};
+      for (size_t q = 0; q < sizeof es / sizeof es[0]; q++) for (int b = 0; b < 2; b++) {
+        bootsSymEncrypt(c, b, sk); uint32_t mu = b ? (1u << 29) : 0u - (1u << 29);
+        c->b = (Torus32)((uint32_t)c->b + (mu + (uint32_t)es[q]) - (uint32_t)lwePhase(c, sk->lwe_key));
+        VH_B; vh_s("k", "bit"); VH_C; vh_i("lambda", lambda); VH_C; vh_i("n", p->in_out_params->n); VH_C; vh_i("bit", b); VH_C; vh_w("ph", (uint32_t)lwePhase(c, sk->lwe_key)); VH_C; vh_i("dec", bootsSymDecrypt(c, sk)); VH_E; } }
     // trivial constants of the gate API decrypt under the key too
     for (int b = 0; b < 2; b++) { bootsCONSTANT(c, b, &sk->cloud); VH_B; vh_s("k", "bit"); VH_C; vh_i("lambda", lambda); VH_C; vh_i("n", p->in_out_params->n); VH_C; vh_i("bit", b); VH_C; vh_w("ph", (uint32_t)lwePhase(c, sk->lwe_key)); VH_C; vh_i("dec", bootsSymDecrypt(c, sk)); VH_E; }
     delete_gate_bootstrapping_ciphertext(c); delete_gate_bootstrapping_secret_keyset(sk); delete_gate_bootstrapping_parameters(p);
